@@ -5,12 +5,16 @@ identifiers.  Oracle: the renaming rules applied in isolation to programs with a
 global / nonlocal, case variants), executed before and after; symtable-free."""
 from __future__ import annotations
 
+import ast
+
 import common
 import oracles
+import scoping
 import sweep
 from common import Suite
 
-TRUSTED = ["C19: use-site discovery (_get_uses_of) against Python's scoping rules is explored by the execution oracle only (RenameCaptureFree is not proved)"]
+TRUSTED = ["C19: which occurrences a rule selects for renaming (_get_uses_of) is code, not model: every pure renaming a rule performs on the corpus is checked against the hypotheses of C19.rename_capture_free (Lean checkHyps) and against CPython's symbol tables, and executed",
+           "C19: harness/scoping.py (extraction of occurrences and scopes from the ast) - compared with CPython's symtable by suite scope-model"]
 ASSUMPTIONS = ["ASCII identifiers in the style model"]
 
 ALPHA = "aAbBzZ_09xY"
@@ -55,17 +59,276 @@ def style_suite(ctx):
     return s
 
 
+def scope_suite(ctx):
+    """the Lean scoping model (C19.var over the occurrences harness/scoping.py extracts) against CPython's symbol tables"""
+    s = Suite("scope-model")
+    items = sweep.targeted() + sweep.pick(sweep.generated_corpus(), ctx, ctx.n(150, 1500)) + sweep.pick(sweep.example_corpus(), ctx, ctx.n(150, 1500))
+    items = items + [("scoping-extra-%d" % i, src, "scoping-extra") for i, src in enumerate(SCOPING_EXTRA)]
+    reqs, metas = [], []
+    skipped = {"no-analysis": 0, "no-symtable-alignment": 0, "too-large": 0}
+    for (sha, src, fam) in items:
+        try:
+            tree = ast.parse(src)
+        except (SyntaxError, ValueError, RecursionError):
+            continue
+        an = scoping.analyse(tree)
+        if an is None:
+            skipped["no-analysis"] += 1
+            continue
+        if len(an.occs) > 600:
+            skipped["too-large"] += 1
+            continue
+        exp = scoping.symtable_vars(src, an)
+        if exp is None:
+            skipped["no-symtable-alignment"] += 1
+            continue
+        reqs.append(an.request())
+        metas.append((sha, src, fam, an, exp))
+    answers = ctx.driver.ask(reqs)
+    kinds = {}
+    for (sha, src, fam, an, exp), ans in zip(metas, answers):
+        s.cases += 1
+        got = [tuple(v) for v in ans.get("vars", [])]
+        if len(got) != len(exp):
+            s.disagreements.append({"sha": sha, "src": src, "what": "the model driver did not answer the scope request"})
+            continue
+        nontrivial = False
+        for o, e, m in zip(an.occs, exp, got):
+            if o.scope.id != 0 and e[0] != o.scope.id:
+                nontrivial = True
+            k = "own-scope" if e[0] == o.scope.id else "module" if e[0] == 0 else "enclosing-function"
+            kinds[k] = kinds.get(k, 0) + 1
+            if tuple(e) != m:
+                s.disagreements.append({"sha": sha, "src": src, "name": o.name, "line": getattr(o.node, "lineno", 0), "scope": o.scope.name, "cpython": list(e), "model": list(m),
+                                        "what": f"the scoping model resolves {o.name!r} (line {getattr(o.node, 'lineno', 0)}, scope {o.scope.name}) to scope {m[0]}, CPython's symbol table to scope {e[0]}"})
+                break
+        if nontrivial:
+            s.nt([sha])
+    s.hist = dict(sorted(kinds.items()))
+    s.samples.append({"suite": s.name, "skipped": skipped})
+    s.note = ("C19.var on the occurrences / scopes / declarations that harness/scoping.py extracts, against the owner scope CPython's symtable reports for the same occurrence "
+              "(comprehension variables: PEP 709 tables no longer list comprehensions, the comprehension owns the names it binds); targeted + generated + repo-example programs + 14 scoping "
+              "programs (class bodies, global / nonlocal chains, walrus in comprehensions, lambdas in defaults, match captures); non-trivial = some name resolves outside its own scope; "
+              "histogram = occurrences by where their variable lives")
+    return s
+
+
+SCOPING_EXTRA = [
+    "x = 1\ndef f():\n    x = 2\n    def g():\n        return x\n    return g\nprint(f()())\n",
+    "x = 1\ndef h():\n    x = 2\n    def f():\n        global x\n        def g():\n            return x\n        return g\n    return f\nprint(h()()())\n",
+    "def h():\n    x = 2\n    def f():\n        nonlocal x\n        x = 3\n        def g():\n            return x\n        return g\n    return f\nprint(h()()())\n",
+    "z = 0\nclass K:\n    z = 1\n    a = [z for _ in range(z)]\n    def m(self):\n        return z\nprint(K.a, K().m())\n",
+    "def f(a, b=[i for i in range(3)], *c, d=lambda q: q, **e):\n    return [(m := j) for j in b], m\nprint(f(1))\n",
+    "import os.path as p, sys\nfrom json import dumps as d, loads\ndef f():\n    import re\n    return re, p, d, loads, sys\nprint(len(f()))\n",
+    "def f(v):\n    match v:\n        case [a, *rest]:\n            return a, rest\n        case {'k': w, **more}:\n            return w, more\n        case str() as s:\n            return s\nprint(f([1, 2]))\n",
+    "def f():\n    try:\n        pass\n    except ValueError as e:\n        print(e)\n    for i, (j, k) in []:\n        pass\n    with open('x') as (a, b):\n        pass\n    del i\n",
+    "class A:\n    x = 1\n    class B:\n        y = x if False else 2\n        def m(self):\n            return x\nx = 5\nprint(A.B().m())\n",
+    "def f():\n    x = 1\n    class C:\n        x = x + 1 if False else 3\n        def m(self):\n            return x\n    return C().m()\nprint(f())\n",
+    "g = 1\ndef f():\n    return [g for g in range(3)], g\nprint(f())\n",
+    "def f():\n    r = [lambda: i for i in range(3)]\n    s = {k: v for k, v in zip(range(2), range(2)) if k or v}\n    return [q() for q in r], s\nprint(f())\n",
+    "def deco(fn):\n    return fn\n@deco\ndef f(x: int = 3) -> int:\n    y: int = x\n    return y\nprint(f())\n",
+    "def f():\n    total = 0\n    def add(n):\n        nonlocal total\n        total += n\n    [add(i) for i in range(4)]\n    return total\nprint(f())\n",
+]
+
+
+def alpha_check(ctx, records):
+    """records: [(sha, src, rule, new)] where the rule changed the text.  For those that are pure renamings (same tree up to
+    identifier spelling): the hypotheses of C19.rename_capture_free, decided by the Lean model, and CPython's own view of both
+    texts.  Returns (validated, by_cpython_only, not_pure, disagreements)."""
+    reqs, metas = [], []
+    not_pure = 0
+    for (sha, src, rule, new) in records:
+        pr = scoping.pure_renaming(src, new)
+        if pr is None:
+            not_pure += 1
+            continue
+        an_a, an_b, steps = pr
+        if len(an_a.occs) > 600:
+            not_pure += 1
+            continue
+        reqs.append(an_a.request(steps))
+        metas.append((sha, src, rule, new, an_a, an_b, steps))
+    answers = ctx.driver.ask(reqs) if reqs else []
+    validated = cpython_only = 0
+    out = []
+    for (sha, src, rule, new, an_a, an_b, steps), ans in zip(metas, answers):
+        names_b = [o.name for o in an_b.occs]
+        va, vb = scoping.symtable_vars(src, an_a), scoping.symtable_vars(new, an_b)
+        bound_ok = True
+        if va is not None:
+            owned = {v for o, v in zip(an_a.occs, va) if o.binding}
+            bound_ok = all(va[i] in owned for (_o, _n, idx) in steps for i in idx)
+        if ans.get("ok") and all(ans["ok"]) and ans.get("names") == names_b and bound_ok:
+            validated += 1
+            if va is not None and vb is not None and not scoping.partition_preserved(va, vb, [o.binding for o in an_a.occs])[0]:
+                out.append({"sha": sha, "src": src, "rule": rule, "out": new, "steps": [list(st[:2]) for st in steps],
+                            "what": f"{rule}: the renaming meets the hypotheses of rename_capture_free in the model but CPython's symbol tables show a different binding structure (model / analyser disagreement)"})
+            continue
+        if va is None or vb is None:
+            continue  # nothing claimed; the execution oracle still looks at it
+        ok, i = scoping.partition_preserved(va, vb, [o.binding for o in an_a.occs])
+        if ok and bound_ok:
+            cpython_only += 1
+            continue
+        o = an_a.occs[i] if i is not None else None
+        what = (f"{rule} renames {[f'{a}->{b}' for (a, b, _i) in steps]}: " +
+                (f"after it {an_b.occs[i].name!r} (line {getattr(o.node, 'lineno', 0)}) refers to another variable than {o.name!r} did before (capture, split or merge of bindings, by CPython's symbol tables)"
+                 if not ok else "a name that the program does not bind (a builtin or an undefined global) is renamed"))
+        out.append({"sha": sha, "src": src, "rule": rule, "out": new, "steps": [list(st[:2]) for st in steps], "what": what})
+    return validated, cpython_only, not_pure, out
+
+
+STRESS_NAMES = ["fooBar", "FooBar", "foo_bar", "FOO_BAR", "x", "X", "emit", "Emit", "myVal", "my_val", "tmpVal", "Node", "node", "i", "I", "countUp", "count_up", "aB", "a_b", "Ab"]
+
+
+def stress_program(r):
+    """a random scope tree over a small pool of names that the conventions map onto each other (fooBar / FooBar / foo_bar /
+    FOO_BAR ...): assignments, defs, classes, loops, comprehensions, lambdas, global / nonlocal, reads before and after
+    rebinding.  Valid Python; not meant to be executed."""
+    pool = r.sample(STRESS_NAMES, r.randint(3, 6))
+
+    def name():
+        return r.choice(pool)
+
+    def expr(depth):
+        k = r.randint(0, 7)
+        if k <= 2:
+            return name()
+        if k == 3:
+            return f"{name()} + {r.randint(0, 9)}"
+        if k == 4:
+            return f"[{name()} for {name()} in range({name()})]"
+        if k == 5:
+            return f"(lambda {name()}: {name()} + {name()})({r.randint(0, 9)})"
+        if k == 6:
+            return f"{name()}({name()})"
+        return str(r.randint(0, 9))
+
+    def block(depth, kind, ind):
+        out = []
+        pad = "    " * ind
+        if kind == "function" and depth > 0 and r.random() < 0.25:
+            out.append(f"{pad}{r.choice(['global', 'nonlocal'] if depth > 1 else ['global'])} {name()}")
+        for _ in range(r.randint(2, 5)):
+            k = r.randint(0, 9)
+            if k <= 2:
+                out.append(f"{pad}{name()} = {expr(depth)}")
+            elif k == 3:
+                out.append(f"{pad}print({name()}, {expr(depth)})")
+            elif k == 4 and depth < 3:
+                args = ", ".join(dict.fromkeys(name() for _ in range(r.randint(0, 2))))
+                out.append(f"{pad}def {name()}({args}):")
+                out.extend(block(depth + 1, "function", ind + 1))
+                out.append(f"{pad}    return {expr(depth)}")
+            elif k == 5 and depth < 2:
+                out.append(f"{pad}class {name()}:")
+                out.extend(block(depth + 1, "class", ind + 1))
+            elif k == 6:
+                out.append(f"{pad}for {name()} in range({r.randint(1, 3)}):")
+                out.append(f"{pad}    {name()} = {expr(depth)}")
+            elif k == 7:
+                out.append(f"{pad}{name()} += {r.randint(1, 3)}")
+            elif k == 8:
+                out.append(f"{pad}if {name()}:")
+                out.append(f"{pad}    {name()} = {expr(depth)}")
+            else:
+                out.append(f"{pad}{name()} = {name()}")
+        return out
+
+    for _ in range(20):
+        src = "\n".join(block(0, "module", 0)) + "\n"
+        try:
+            compile(src, "<stress>", "exec")
+            return src
+        except SyntaxError:
+            continue
+    return "x = 1\n"
+
+
+_STRESS = []
+
+
+def stress_corpus():
+    """fixed: independent of VERIF_SEED (which only selects the quick slice)"""
+    if not _STRESS:
+        import random
+        for seed in range(7000, 7012):
+            r = random.Random(seed)
+            for _ in range(400):
+                src = stress_program(r)
+                _STRESS.append((oracles.sha(src), src, "rename-stress"))
+    return _STRESS
+
+
+def task_apply(args):
+    src, rules = args
+    out = []
+    for rule in rules:
+        st, new = oracles.task_format((src, {}, "rule:" + rule))
+        if st == "ok" and new is not None and new != src:
+            out.append((rule, new))
+    return out
+
+
+def alpha_suite(ctx):
+    """static only, no execution: the renaming rules on many more programs, every pure renaming checked as in alpha_check"""
+    s = Suite("rename-static", kind="oracle")
+    items = sweep.pick(stress_corpus(), ctx, ctx.n(500, len(stress_corpus())))
+    items += sweep.pick(sweep.generated_corpus(), ctx, ctx.n(200, 3000)) + sweep.pick(sweep.example_corpus(), ctx, ctx.n(100, 1500))
+    results = oracles.pmap(task_apply, [(src, RENAMING_RULES) for (_sha, src, _fam) in items])
+    records = []
+    for (sha, src, fam), res in zip(items, results):
+        s.cases += 1
+        if not isinstance(res, list):
+            continue
+        for (rule, new) in res:
+            records.append((sha, src, rule, new))
+            s.nt([sha, rule])
+    validated, cpython_only, not_pure, static = alpha_check(ctx, records)
+    known = set(sweep.baseline("C02")) | set(sweep.baseline("C19"))
+    excluded = sum(1 for d in static if sweep.key(d["sha"], {}, d["rule"]) in known)
+    s.disagreements.extend(d for d in static if sweep.key(d["sha"], {}, d["rule"]) not in known)
+    s.samples.append({"suite": s.name, "baseline_excluded": excluded})
+    s.samples.append({"suite": s.name, "rule_outputs": len(records), "pure_renamings_validated_by_theorem": validated, "pure_renamings_checked_by_symtable_only": cpython_only,
+                      "outputs_not_a_pure_renaming": not_pure})
+    s.note = ("the 7 renaming rules on random scope trees over names that the conventions map onto each other (fooBar / FooBar / foo_bar / FOO_BAR, defs and variables sharing a name, "
+              "global / nonlocal, comprehensions, lambdas, class bodies) + generated + repo-example programs; no execution: every output that is the input with identifiers respelled must meet "
+              "checkHyps (then C19.rename_capture_free applies) or keep the binding structure CPython's symbol tables report; non-trivial = a rule changed the text")
+    return s
+
+# the shapes behind the repairs recorded in KNOWN_FINDINGS.txt (2da34a4 ... ): run in both tiers, executed and checked statically
+RENAME_WITNESSES = [
+    "def f():\n    fooBar = 1\n    FooBar = 2\n    print(fooBar, FooBar)\nf()\n",
+    "def emit(v):\n    return ('module-level', v)\n\n\nfirst = emit(1)\nemit = str\nout = emit(2)\nprint(first, out)\n",
+    "def count_up(start, tmpVal):\n    tmpVal += 3\n    return start + tmpVal\nprint(count_up(1, 2))\n",
+    "def count_up(start, tmpVal=None):\n    tmpVal = tmpVal or 3\n    return start + tmpVal\nprint(count_up(1), count_up(1, 5))\n",
+    "fooBar = 5\ndef compute(val):\n    fooBar = val\n    return fooBar\nprint(compute(2), fooBar)\n",
+    "FooBar = 3\ndef FOO_BAR(tmpVal):\n    FooBar = tmpVal\n    return FooBar\nprint(FOO_BAR(1), FooBar)\n",
+    "myVal = 4\ndef outer():\n    def inner():\n        myVal = 1\n        return myVal\n    return inner() + myVal\nprint(outer(), myVal)\n",
+    "def f():\n    out = []\n    for i in range(3):\n        if i:\n            out.append(lastVal)\n        lastVal = i\n    return out\nprint(f())\n",
+    "maxSize = 10\nclass Config:\n    maxSize = 5\n    def get(self):\n        return maxSize\n    pick = lambda self: maxSize + 1\nprint(Config().get(), Config().pick(), Config.maxSize)\n",
+    "topVal = 3\ndef f():\n    return [topVal for topVal in range(topVal)]\nprint(f(), topVal)\n",
+    "from math import *\nmyTau = 1\ndef f():\n    return tau + myTau\nprint(f() > 6)\n",
+    "class Base:\n    pass\nclass A(Base):\n    fooBar = 1\n    y = fooBar + 1\nprint(A.y)\n",
+    "lastItem = 0\ndef f(items):\n    for lastItem in items:\n        pass\n    lastItem = (lastItem, 1)\n    return lastItem\nprint(f([1, 2]), lastItem)\n",
+    "def outer():\n    curVal = 1\n    def bump():\n        nonlocal curVal\n        curVal += 1\n        return curVal\n    return bump() + curVal\nprint(outer())\n",
+]
+
+
 def rename_oracle(ctx):
     s = Suite("rename-behaviour", kind="oracle")
     base = sweep.baseline("C02")
-    items = sweep.targeted() + sweep.pick(sweep.generated_corpus(), ctx, 40)
+    items = [(oracles.sha(src), src, "rename-witness") for src in RENAME_WITNESSES] + sweep.targeted() + sweep.pick(sweep.generated_corpus(), ctx, 40)
     results = oracles.pmap(sweep.task_rules, [(src, RENAMING_RULES, False) for (_sha, src, _fam) in items])
+    records = []
     for (sha, src, fam), res in zip(items, results):
         s.cases += 1
         if res.get("status") != "ok":
             continue
         b = res["before"]
         for (rule, st, new, after) in res["rules"]:
+            if st == "ok" and new is not None and new != src and sweep.key(sha, {}, rule) not in base:
+                records.append((sha, src, rule, new))
             if st != "ok" or b[0] != "ok" or after is None:
                 continue
             s.nt([sha, rule])
@@ -74,17 +337,32 @@ def rename_oracle(ctx):
             if (after[0], after[1]) != (b[0], b[1]):
                 s.disagreements.append({"sha": sha, "src": src, "rule": rule, "out": new, "family": fam,
                                         "what": f"{rule} changes behaviour ({'ends with ' + after[0] if after[0] != b[0] else 'stdout differs'}) on a {fam} program"})
-    s.note = "the 7 renaming / name-generating rules applied in isolation to the whole targeted corpus (static methods calling each other through the class, locals clashing with globals due for renaming, shadowed definitions, shadowing locals, kw-only parameters, global/nonlocal, duplicate functions, overused constants, case variants) and a slice of the first; executed before and after"
+    validated, cpython_only, not_pure, static = alpha_check(ctx, records)
+    seen = {(d["sha"], d["rule"]) for d in s.disagreements}
+    s.disagreements.extend(d for d in static if (d["sha"], d["rule"]) not in seen)
+    s.samples.append({"suite": s.name, "pure_renamings_validated_by_theorem": validated, "pure_renamings_checked_by_symtable_only": cpython_only, "outputs_not_a_pure_renaming": not_pure})
+    s.note = "(static part: every output that is the input with identifiers respelled is checked against checkHyps / CPython's symbol tables - capture, split, merge, renaming of unbound names) the 7 renaming / name-generating rules applied in isolation to the whole targeted corpus (static methods calling each other through the class, locals clashing with globals due for renaming, shadowed definitions, shadowing locals, kw-only parameters, global/nonlocal, duplicate functions, overused constants, case variants) and a slice of the first; executed before and after"
     return s
 
 
 def suites(ctx):
     common.import_pyrefact()
-    return [style_suite(ctx), rename_oracle(ctx)]
+    return [style_suite(ctx), scope_suite(ctx), rename_oracle(ctx), alpha_suite(ctx)]
 
 
 def match_known(d, known):
     return sweep.match_known_sha(d, known)
+
+
+def _breaks(ctx, src, rule):
+    res = sweep.task_rules((src, [rule], False))
+    b = res["before"]
+    for (_r, st, new, after) in res["rules"]:
+        if st == "ok" and after is not None and (after[0], after[1]) != (b[0], b[1]):
+            return True
+        if st == "ok" and new is not None and new != src and alpha_check(ctx, [("replay", src, rule, new)])[3]:
+            return True
+    return False
 
 
 def replay_witness(ctx, kf):
@@ -94,9 +372,7 @@ def replay_witness(ctx, kf):
         from pyrefact import style
         return style.rename_variable(w["name"], static=w["static"], private=w["private"]) == w["renamed"]
     if "src" in w and "rule" in w:
-        res = sweep.task_rules((w["src"], [w["rule"]], False))
-        b = res["before"]
-        return any(st == "ok" and after is not None and (after[0], after[1]) != (b[0], b[1]) for (_r, st, _n, after) in res["rules"])
+        return _breaks(ctx, w["src"], w["rule"])
     return None
 
 
@@ -107,6 +383,4 @@ def search(ctx, breaks):
 
 def replay(ctx, inp):
     common.import_pyrefact()
-    res = sweep.task_rules((inp["src"], [inp["rule"]], False))
-    b = res["before"]
-    return any(st == "ok" and after is not None and (after[0], after[1]) != (b[0], b[1]) for (_r, st, _n, after) in res["rules"])
+    return _breaks(ctx, inp["src"], inp["rule"])
